@@ -83,6 +83,8 @@ type blockDesc struct {
 	BeginHex string         `json:"beginhex"`
 	BeginOff int            `json:"beginoff"` // begin - code base (-1 if outside 0..2^20)
 	Ins   []zzverifui.LineTok `json:"ins"`
+	Lo    []int             `json:"lo"` // the code's own move bounds of every instruction (inclusive indices)
+	Up    []int             `json:"up"`
 }
 
 type uiEvent struct {
@@ -169,7 +171,7 @@ func (u *uiSession) describe(ev *uiEvent) {
 	}
 	ev.Fresh = s.Fresh()
 	for pos, b := range s.Code.Blocks() {
-		bd := blockDesc{Pos: pos, Begin: le(uint64(b.Begin()), 8), BeginHex: hexAddr(uint64(b.Begin())), BeginOff: -1, Ins: []zzverifui.LineTok{}}
+		bd := blockDesc{Pos: pos, Begin: le(uint64(b.Begin()), 8), BeginHex: hexAddr(uint64(b.Begin())), BeginOff: -1, Ins: []zzverifui.LineTok{}, Lo: []int{}, Up: []int{}}
 		if d := uint64(b.Begin()) - u.base; d < 1<<20 {
 			bd.BeginOff = int(d)
 		}
@@ -179,6 +181,8 @@ func (u *uiSession) describe(ev *uiEvent) {
 				bs = append(bs, fmt.Sprintf("%02X", x))
 			}
 			bd.Ins = append(bd.Ins, zzverifui.LineTok{Kind: "instr", Text: in.String(), Bytes: strings.Join(bs, " ")})
+			bd.Lo = append(bd.Lo, b.LowerBound(in.Idx()))
+			bd.Up = append(bd.Up, b.UpperBound(in.Idx()))
 		}
 		ev.Proj = append(ev.Proj, bd)
 	}
